@@ -55,6 +55,18 @@ theorem sim_setCoordFromAF (o : Ops V) (c name : String) :
   sim_auto
 macro_rules | `(tactic| sim_leaf) => `(tactic| exact sim_setCoordFromAF _ _ _)
 
+theorem sim_dist2D (o : Ops V) (i j : Nat) :
+    Sim n (fun _ => True) (dist2D (σ := St V) o i j) (dist2D (σ := ATab V) o i j) := by
+  unfold dist2D
+  sim_auto
+macro_rules | `(tactic| sim_leaf) => `(tactic| exact sim_dist2D _ _ _)
+
+theorem sim_speedBetween (o : Ops V) (i j : Nat) :
+    Sim n (fun _ => True) (speedBetween (σ := St V) o i j) (speedBetween (σ := ATab V) o i j) := by
+  unfold speedBetween
+  sim_auto
+macro_rules | `(tactic| sim_leaf) => `(tactic| exact sim_speedBetween _ _ _)
+
 theorem sim_evalAlgo (o : Ops V) (alg : Algo V) (i : Nat) :
     Sim n (fun _ => True) (evalAlgo (σ := St V) o alg i) (evalAlgo (σ := ATab V) o alg i) := by
   cases alg <;> (unfold evalAlgo; sim_auto)
@@ -65,6 +77,8 @@ theorem sim_addAF (o : Ops V) (alg : Algo V) (name : String) :
   unfold addAF
   sim_auto
 
+macro_rules | `(tactic| sim_leaf) => `(tactic| exact sim_addAF _ _ _)
+
 theorem sim_unaryTemp (o : Ops V) (k : UOp) (inp : String) (m : Nat) :
     Sim n (fun _ => True) (unaryTemp (σ := St V) o k inp m) (unaryTemp (σ := ATab V) o k inp m) := by
   cases k <;> (unfold unaryTemp; sim_auto)
@@ -74,6 +88,8 @@ theorem sim_unaryVoid (o : Ops V) (k : UOp) (inp out : String) :
     Sim n (fun _ => True) (unaryVoid (σ := St V) o k inp out) (unaryVoid (σ := ATab V) o k inp out) := by
   unfold unaryVoid
   sim_auto
+
+macro_rules | `(tactic| sim_leaf) => `(tactic| exact sim_unaryVoid _ _ _ _)
 
 theorem sim_binaryVoid (o : Ops V) (k : BOp) (in1 in2 out : String) :
     Sim n (fun _ => True) (binaryVoid (σ := St V) o k in1 in2 out) (binaryVoid (σ := ATab V) o k in1 in2 out) := by
@@ -169,6 +185,21 @@ theorem sim_runVFn (o : Ops V) (f : VFn) (inp out : String) :
   | log => unfold runVFn; exact sim_bind (sim_logVoid o inp out) (fun _ _ => sim_pure _ trivial)
   | apply name => unfold runVFn; sim_auto
 macro_rules | `(tactic| sim_leaf) => `(tactic| exact sim_runVFn _ _ _ _)
+
+theorem sim_absCurvOp (o : Ops V) :
+    Sim n (fun _ => True) (absCurvOp (σ := St V) o) (absCurvOp (σ := ATab V) o) := by
+  unfold absCurvOp
+  sim_auto
+
+theorem sim_estSpeedOp (o : Ops V) :
+    Sim n (fun _ => True) (estSpeedOp (σ := St V) o) (estSpeedOp (σ := ATab V) o) := by
+  unfold estSpeedOp
+  sim_auto
+
+theorem sim_segmentOp (o : Ops V) (inp out : String) (thr : V) :
+    Sim n (fun _ => True) (segmentOp (σ := St V) o inp out thr) (segmentOp (σ := ATab V) o inp out thr) := by
+  unfold segmentOp
+  sim_auto
 
 theorem sim_hasSV (sv : SV V) : Sim n (fun _ => True) (hasSV (σ := St V) sv) (hasSV (σ := ATab V) sv) := by
   cases sv <;> (unfold hasSV; sim_auto)
